@@ -1,7 +1,7 @@
 (* C07 property theorems: statements only, each closed by [exact]. *)
 From Coq Require Import String.
 From Boltons Require Import Lib.Prelude Lib.C07_Str Spec.C07_Spec Gen.C07_Gen Model.C07_Model
-     Proofs.C07_StrLemmas Proofs.C07_Rds Proofs.C07_Resolve Proofs.C07_Parse Proofs.C07_Navigate
+     Proofs.C07_StrLemmas Proofs.C07_Rds Proofs.C07_Resolve Proofs.C07_Parse Proofs.C07_Navigate Proofs.C07_Query
      Proofs.C07_Text Proofs.C07_RfcExamples Gen.C07_Src Proofs.C07_SrcEq Gen.C07_Src2 Proofs.C07_SrcEq2
      Check.C07_Check
      Proofs.C07_Refine Proofs.C07_RoundTrip Proofs.C07_Unrooted Proofs.C07_Case
@@ -195,6 +195,35 @@ Example C07_navigate_unrooted_ex :
 Proof.
   split; [split; [wf_concrete | vm_compute; repeat eexists]|]. vm_compute. split; reflexivity.
 Qed.
+
+(* ---- the query, at the level of (key, value) pairs ------------------------------------------
+   RFC 5.2.2 read on pair lists: the target's pairs are those of ONE query - the reference's, or
+   the base's only when the reference has neither path nor query - same order, same multiplicity *)
+Theorem C07_query_rfc_pairs : forall B R T, transform B R = Some T ->
+  query_pairs (query T) = target_query_pairs B R.
+Proof. exact transform_query. Qed.
+Print Assumptions C07_query_rfc_pairs.
+(* the URL object navigate returns carries exactly that pair list (inheritance, repeated keys, order) *)
+Theorem C07_query_pairs_model : forall b d, wf_base b -> wf_ref d ->
+  u_query (navigate_rel b d) =
+  if is_nil (path_text d) && is_nil (u_query d) then u_query b else u_query d.
+Proof. exact navigate_rel_query_pairs. Qed.
+Print Assumptions C07_query_pairs_model.
+(* and its rendering satisfies the pair-level clause the run evaluates, after one and after two steps *)
+Theorem C07_query_pairs : forall b d, wf_base b -> wf_ref d \/ wf_base d ->
+  spec_query (to_text b) (to_text d) (to_text (navigate_url b d)) = true.
+Proof. exact navigate_url_query. Qed.
+Print Assumptions C07_query_pairs.
+Theorem C07_query_pairs_chain : forall b d1 d2, wf_base b -> wf_ref d1 \/ wf_base d1 -> wf_ref d2 \/ wf_base d2 ->
+  spec_query_chain (to_text b) (to_text d1) (to_text d2) (to_text (navigate_url (navigate_url b d1) d2)) = true.
+Proof. exact navigate_url_query_chain. Qed.
+Print Assumptions C07_query_pairs_chain.
+Example C07_query_pairs_ex :
+  query_pairs (Some (codes "k=1&k=2&z&a=b=c")) =
+    [(codes "k", Some (codes "1")); (codes "k", Some (codes "2")); (codes "z", None); (codes "a", Some (codes "b=c"))] /\
+  u_query (navigate_rel (or_dummy (url_of_text (codes "http://a/b?x=1&x=2&y"))) (or_dummy (url_of_text (codes "#f")))) =
+    [(codes "x", Some (codes "1")); (codes "x", Some (codes "2")); (codes "y", None)].
+Proof. vm_compute. split; reflexivity. Qed.
 
 (* the result is again a well-formed base (so theorems chain), has no dot
    segment and is rooted *)
